@@ -24,7 +24,8 @@ T       == Traces[tid]
 Ev      == T[i]
 More    == i <= Len(T)
 
-Adv     == i' = i + 1 /\ UNCHANGED <<tid, seen>> /\ (Diag => PrintT(<<"PROG", tid, i>>))
+Prog    == Diag => PrintT(<<"PROG", tid, i>>)
+Adv     == i' = i + 1 /\ UNCHANGED <<tid, seen>> /\ Prog
 Is(k)   == More /\ Ev.e = k
 
 SenderOf(name) == CHOOSE s \in Senders : s = name
@@ -68,8 +69,8 @@ Matched ==
   \/ Is("dret")  /\ DcRet /\ Adv
   \/ Is("done")  /\ Ev.a \in AllMsgs /\ doneCnt[Ev.a] > seen[Ev.a]
                  /\ seen' = [seen EXCEPT ![Ev.a] = @ + 1]
-                 /\ i' = i + 1 /\ UNCHANGED <<tid, vars>>
-  \/ Is("wfd")   /\ quit /\ i' = i + 1 /\ UNCHANGED <<tid, seen, vars>>
+                 /\ i' = i + 1 /\ UNCHANGED <<tid, vars>> /\ Prog
+  \/ Is("wfd")   /\ quit /\ i' = i + 1 /\ UNCHANGED <<tid, seen, vars>> /\ Prog
   \* final census: which goroutines of the peer are left (and blocked), every signal that
   \* was sent has been received, and what the public getters report
   \/ Is("end")   /\ UnfinishedAt = Ev.l
@@ -77,7 +78,7 @@ Matched ==
                  /\ (\A m \in AllMsgs : seen[m] = doneCnt[m])
                  /\ Ev.a = nego
                  /\ Ev.b = (IF versionKnown THEN "K" ELSE "k") \o (IF verAck THEN "A" ELSE "a")
-                 /\ i' = i + 1 /\ UNCHANGED <<tid, seen, vars>>
+                 /\ i' = i + 1 /\ UNCHANGED <<tid, seen, vars>> /\ Prog
 
 Hidden == Internal /\ UNCHANGED tvars
 
